@@ -356,6 +356,10 @@ func init() {
 			if v != nil {
 				return v
 			}
+			// the property's observables on the same runs: a failing input outranks a model disagreement
+			if ov := c13OracleJudge(args, real, nil); ov != nil && ov.Kind == "fail" {
+				return ov
+			}
 			var d struct {
 				Traces int               `json:"traces"`
 				NBad   int               `json:"nbad"`
@@ -445,9 +449,13 @@ var c13Ctx *core.Ctx
 
 func runC13(ctx *core.Ctx) {
 	c13Ctx = ctx
+	// trav.sched judges the model tie AND the oracle on its runs; the quick tier runs the oracle a second time on an
+	// independent execution (other map orders, other select choices), the thorough tier spends that time on volume
 	both := func(a c13Args) {
 		ctx.Add("trav.sched", a)
-		ctx.Add("trav.oracle", a)
+		if !ctx.Thorough() {
+			ctx.Add("trav.oracle", a)
+		}
 	}
 	limits := []int{0, 1, 2, 3}
 	dirs := []bool{false, true}
@@ -476,12 +484,12 @@ func runC13(ctx *core.Ctx) {
 			for _, rev := range dirs {
 				for _, lim := range []int{0, 1} {
 					for _, errs := range [][]int{nil, {0}} {
-						both(c13Args{c13Graph: c13Graph{N: n, Edges: es, Reverse: rev, Limit: lim}, Errs: errs, Mode: "dfs", Budget: ctx.Pick(200, 6000)})
+						both(c13Args{c13Graph: c13Graph{N: n, Edges: es, Reverse: rev, Limit: lim}, Errs: errs, Mode: "dfs", Budget: ctx.Pick(200, 4000)})
 						ctx.Count("full-dfs")
 					}
 					// the caller cancels its own context at every possible point (outside the property: only the model tie,
 					// once / order / bound / return-after-all are judged)
-					both(c13Args{c13Graph: c13Graph{N: n, Edges: es, Reverse: rev, Limit: lim, ExtCancel: true}, Mode: "dfs", Budget: ctx.Pick(150, 6000)})
+					both(c13Args{c13Graph: c13Graph{N: n, Edges: es, Reverse: rev, Limit: lim, ExtCancel: true}, Mode: "dfs", Budget: ctx.Pick(150, 3000)})
 					both(c13Args{c13Graph: c13Graph{N: n, Edges: es, Reverse: rev, Limit: lim, ExtCancel: true}, Mode: "random", Seed: ctx.Rng.Int63n(1 << 30), Budget: 10})
 					ctx.Count("external-cancel")
 				}
